@@ -204,7 +204,8 @@ Record C01_case := mkC01 {
   k_streams : list (Z * list (list nat));    (* client id -> recorded batch index stream *)
   k_rounds : list (list (Z * list Q));       (* per round: (client id, nu stream of its key) in call order *)
   k_tol : Q;
-  k_hp : Z * option Z * option Z * bool      (* ShuffleRepeatBatchHParams: batch_size, num_epochs, num_steps, drop_remainder *)
+  k_hp : Z * option Z * option Z * bool;     (* ShuffleRepeatBatchHParams: batch_size, num_epochs, num_steps, drop_remainder *)
+  k_grid : option (Z * Z * Z * Z * list Z)   (* exhaustive step-count grid: bounds (Nmax, bsmax, emax, smax), observed counts *)
 }.
 Record C01_round := mkR01 {
   r_params : list Q;            (* server params returned by apply *)
@@ -270,6 +271,31 @@ Definition stream_ok (c : C01_case) (id_stream : Z * list (list nat)) : bool :=
    end) &&
   forallb (fun b => Z.eqb (Z.of_nat (length b)) bs && forallb (fun i => Nat.ltb i n) b) st.
 
+(* Exhaustive grid for the step-count formula: all (N, batch_size, num_epochs, num_steps, drop_remainder) with
+   0 <= N <= Nmax, 1 <= bs <= bsmax, num_epochs in {None, 0..emax}, num_steps in {None, 0..smax}, except the
+   non-terminating (None, None); enumeration order = nested loops in that order, drop_remainder innermost (false, true).
+   The observed number of batches of the real view must be the translated shuffle_num_steps (0 for an empty dataset). *)
+Definition zrange (a b : Z) : list Z := map (fun i => a + Z.of_nat i)%Z (seq 0 (Z.to_nat (b - a + 1))).
+Definition oz_range (m : Z) : list (option Z) := None :: map Some (zrange 0 m).
+Definition grid_expected (N bs : Z) (e s : option Z) (drop : bool) : Z :=
+  if (N =? 0)%Z then 0%Z
+  else match Gen_client_datasets.shuffle_num_steps N bs e s drop with
+       | Some (Some k) => k
+       | _ => (-1)%Z
+       end.
+Definition grid_points (Nmax bsmax emax smax : Z) : list Z :=
+  flat_map (fun N => flat_map (fun bs => flat_map (fun e => flat_map (fun s =>
+    match e, s with
+    | None, None => []
+    | _, _ => [grid_expected N bs e s false; grid_expected N bs e s true]
+    end) (oz_range smax)) (oz_range emax)) (zrange 1 bsmax)) (zrange 0 Nmax).
+Definition grid_ok (g : option (Z * Z * Z * Z * list Z)) : bool :=
+  match g with
+  | None => true
+  | Some (Nmax, bsmax, emax, smax, obs) => list_beq Z.eqb (grid_points Nmax bsmax emax smax) obs
+  end.
+
 Definition C01_agree (c : C01_case) (o : C01_obs) : bool :=
+  grid_ok (k_grid c) &&
   forallb (stream_ok c) (k_streams c) &&
   rounds_agree c (k_init c) (vzero (length (k_init c))) (k_rounds c) o.
